@@ -46,10 +46,21 @@ type C04Case struct {
 
 func genC04(t *rapid.T) C04Case {
 	o := worldOpts()
-	w := gen.AnyWorld(t, o)
+	var w gen.World
+	cyclic := rapid.IntRange(0, 3).Draw(t, "cyclic") == 0
+	if cyclic {
+		o.ForceLinkConds = rapid.Bool().Draw(t, "linkConds")
+		w = gen.CycleWorld(t, o) // recursive relations over densely (and conditionally) linked objects
+	} else {
+		w = gen.AnyWorld(t, o)
+	}
 	c := C04Case{World: w}
-	for range w.Tuples {
-		c.Split = append(c.Split, rapid.IntRange(0, 2).Draw(t, "ctx") == 0)
+	for _, tu := range w.Tuples {
+		p := 3
+		if cyclic && tu.Cond != "" {
+			p = 2 // conditioned links and grants are the interesting contextual tuples there
+		}
+		c.Split = append(c.Split, rapid.IntRange(0, p-1).Draw(t, "ctx") == 0)
 	}
 	for _, r := range genRequests(t, w, o, 2, 5) {
 		r.Contextual = nil
@@ -67,6 +78,36 @@ func genC04(t *rapid.T) C04Case {
 	c.Expand = []m.Request{gen.RequestFor(t, w, o)}
 	return c
 }
+
+// genC04Links: only Check requests, on recursive relations whose links (parent objects, member
+// usersets) are conditioned: the contextual tuples are mostly conditioned links, one or more levels
+// below the requested object.
+func genC04Links(t *rapid.T) C04Case {
+	o := worldOpts()
+	o.ForceLinkConds = true
+	w := gen.CycleWorld(t, o)
+	c := C04Case{World: w}
+	for _, tu := range w.Tuples {
+		p := 4
+		if tu.Cond != "" {
+			p = 2
+		}
+		c.Split = append(c.Split, rapid.IntRange(0, p-1).Draw(t, "ctx") == 0)
+	}
+	tn := gen.CycleType(w)
+	for i, n := 0, rapid.IntRange(3, 6).Draw(t, "nChecks"); i < n; i++ {
+		r := gen.RequestFor(t, w, o)
+		r.Contextual = nil
+		r.Object = fmt.Sprintf("%s:%d", tn, rapid.IntRange(0, o.MaxIDs-1).Draw(t, "obj"))
+		if rapid.IntRange(0, 3).Draw(t, "subjectZero") > 0 {
+			r.User = "user:0"
+		}
+		c.Checks = append(c.Checks, r)
+	}
+	return c
+}
+
+func TestC04Links(t *testing.T) { fw.Run(t, "C04", genC04Links, checkC04) }
 
 func cachedServer() *sut.SUT {
 	return pooled("cached-all", func() []server.OpenFGAServiceV1Option {
